@@ -573,4 +573,32 @@ theorem classify_of_comm {s : Setup} {focal : RegGrid} {δx δy Δx Δy zx zy Zx
   · split_ifs <;> simp
   · rfl
 
+/-! ## the tolerant test with zero tolerance is the exact one -/
+
+theorem roundHalfEven_intCast (n : ℤ) : roundHalfEven (n : ℚ) = n := by
+  unfold roundHalfEven
+  rw [Rat.floor_intCast]
+  simp
+
+theorem paddedSizeLoose_zero (lf δ Δ : ℚ) (N : ℕ) : paddedSizeLoose 0 0 lf δ Δ N = paddedSize lf δ Δ N := by
+  unfold paddedSizeLoose paddedSize
+  by_cases h0 : δ * Δ = 0
+  · rw [if_pos h0, if_pos h0]
+  rw [if_neg h0, if_neg h0]
+  dsimp only
+  generalize lf / (δ * Δ) = m
+  rw [ratAbs_eq_abs, zero_mul, add_zero]
+  by_cases hd : m.den = 1
+  · have hm : m = ((m.num : ℤ) : ℚ) := (Rat.coe_int_num_of_den_eq_one hd).symm
+    have hr : roundHalfEven m = m.num := by rw [hm, roundHalfEven_intCast]; simp
+    have habs : |m - ((m.num : ℤ) : ℚ)| ≤ 0 := by rw [← hm]; simp
+    simp only [hd, hr, habs, true_and]
+  · have hne : ¬ |m - ((roundHalfEven m : ℤ) : ℚ)| ≤ 0 := by
+      intro h
+      have : m = ((roundHalfEven m : ℤ) : ℚ) := by
+        have := abs_nonpos_iff.mp h
+        linarith
+      exact hd (by rw [this]; exact Rat.den_intCast _)
+    simp only [hd, hne, false_and, if_false]
+
 end HcipyVerif.Fraunhofer
